@@ -396,6 +396,11 @@ partial def loop (h : IO.FS.Stream) (cur : Option Run) (pend : Scen) (st : Stats
         | [] => leak
       else leak
     let wfS := match r.wf with | some true => " wf=1" | some false => " wf=0" | none => ""
+    -- every grant has been released through its guard (API level), nothing is pending, and yet threads wait for the lock
+    let leak := if !hasGuard && r.sc.comp != "thread" && status == "stuck" && r.mon.grants.isEmpty && r.pendingRel.isEmpty &&
+        !blocked.isEmpty && !(leak.splitOn "guard:").length > 1 then
+        addMsg leak s!"guard: every grant has been released by its guard, but {blocked.length} thread(s) still wait on lock {(blocked.head!).2}: a release did not reach the lock object it belongs to (dropped, or applied to another object)"
+      else leak
     IO.println s!"RES {r.sc.id} end={status}{protoS}{wfS} steps={r.step} corr={corr} ;; mon={leak} ;; hb={hbS}"
     let st := { st with scen := st.scen + 1,
                         mismatches := st.mismatches + (if corr == "ok" then 0 else 1),
